@@ -303,8 +303,9 @@ Section Proofs.
       rewrite Hmust in Henv, Hred. cbn [andb] in Henv, Hred. split.
       + intros Hb. rewrite Hb in Hred. cbn [opt_eqb] in Hred. rewrite String.eqb_refl in Hred.
         destruct (Hred eq_refl) as [_ (a & g & Ha & Hg & Hok)].
-        apply redirect_sig_sound in Hok as [_ [k [Hs Hin]]].
-        exists k, a, g. unfold sender. fold (issuer_id (msg x)). auto.
+        apply redirect_sig_sound in Hok as [Hal [k [Hs Hin]]].
+        exists k, a, g. unfold sender. fold (issuer_id (msg x)).
+        split; [exact Ha|]. split; [exact Hg|]. split; [exact Hs|]. split; [exact Hin|exact Hal].
       + intros Hb He. rewrite He in Henv. apply negb_false_iff in Henv.
         apply opt_str_eqb_eq in Henv. contradiction.
     - (* a present enveloped signature verifies *)
@@ -319,7 +320,11 @@ Section Proofs.
         [contradiction Hn; reflexivity|].
       apply receiver_addrs_sound. rewrite Ea. apply mem_In. exact Hd.
     - exact Hver.
-    - unfold issue_instant_ok, slack in Ht. unfold skew. lia.
+    - (* the zone was one the code reads (else valid_instance refuses): the instant denoted is the one compared *)
+      unfold valid_instance in Hvi. apply andb_true_iff in Hvi as [_ Hz].
+      exists (issued (msg x)). split.
+      + unfold denoted. destruct (izone (msg x)); try discriminate Hz; reflexivity.
+      + unfold issue_instant_ok, slack in Ht. unfold skew. lia.
   Qed.
 
   (* ---------- consequences stated directly ---------- *)
@@ -454,6 +459,39 @@ Section Proofs.
     unfold redirect_sig_ok in Hok. destruct (issuer (msg x)); [discriminate|discriminate].
   Qed.
 
+  (* a SigAlg that names no signature algorithm (Spec.sig_alg) never passes for a required signature: nothing is
+     "not complained about" because it could not be verified *)
+  Theorem unverifiable_alg_rejected (x : input) :
+    requires_signed (cfg x) -> binding x = Some BINDING_HTTP_REDIRECT ->
+    (forall sa, sigalg x = Some sa -> ~ sig_alg sa) -> parse x <> Accept.
+  Proof.
+    intros Hreq Hb Hn Hacc. destruct (detached_alg_supported x Hreq Hb Hacc) as (sa & Ha & Hin & _).
+    exact (Hn sa Ha Hin).
+  Qed.
+
+  (* an IssueInstant written with a numeric offset - legal or not - or with anything else that is no 'Z' after the
+     seconds is never processed: the code reads no offset, and it refuses what it would misread *)
+  Theorem zone_offset_rejected (x : input) : zone_read (izone (msg x)) = false -> parse x <> Accept.
+  Proof.
+    intros Hz Hacc. apply accept_inv in Hacc. cbv zeta in Hacc.
+    destruct Hacc as (_ & _ & _ & _ & Hvi & _). unfold valid_instance in Hvi.
+    rewrite Hz, andb_false_r in Hvi. discriminate.
+  Qed.
+
+  (* what is processed denotes an instant - the written date and time, in UTC - at most a day plus skew off
+     (the lower edge included, the upper not) *)
+  Theorem accepted_instant (x : input) :
+    parse x = Accept ->
+    denoted (msg x) = Some (issued (msg x))
+    /\ (now x - 86400 - skew (cfg x) <= issued (msg x) < now x + 86400 + skew (cfg x))%Z.
+  Proof.
+    intros Hacc. apply accept_inv in Hacc. cbv zeta in Hacc.
+    destruct Hacc as (_ & _ & _ & _ & Hvi & _ & _ & Ht). unfold valid_instance in Hvi.
+    apply andb_true_iff in Hvi as [_ Hz]. split.
+    - unfold denoted. destruct (izone (msg x)); try discriminate Hz; reflexivity.
+    - unfold issue_instant_ok, slack in Ht. unfold skew. lia.
+  Qed.
+
   (* what is processed is an element of the class the entry point expects, decoded by the rule of
      the binding *)
   Theorem accepted_kind (x : input) : parse x = Accept -> b_kind (msg x) = expected x.
@@ -509,13 +547,13 @@ Section Proofs.
                     /\ signature x = Some (dsign k (origdoc x, relay_state x, sa))
                     /\ In (cert_of k) (md_certs (cfg x) (issuer_id (msg x)))) ->
     (* well-formed, addressed to the receiver, current *)
-    inst_ok (msg x) = true -> version (msg x) = "2.0" ->
+    inst_ok (msg x) = true -> zone_read (izone (msg x)) = true -> version (msg x) = "2.0" ->
     (forall d, destination (msg x) = Some d ->
        In d (receiver_addrs (cfg x) (service_of (expected x)) (binding x))) ->
     (now x - 86400 - slack (cfg x) <= issued (msg x) < now x + 86400 + slack (cfg x))%Z ->
     parse x = Accept.
   Proof.
-    intros Hw Hk Henv Hpost Hred Hinst Hver Hdst Ht.
+    intros Hw Hk Henv Hpost Hred Hinst Hzone Hver Hdst Ht.
     unfold parse_request. cbv zeta.
     assert (Ek : kind_eqb (b_kind (msg x)) (expected x) = true) by (apply kind_eqb_eq; exact Hk).
     rewrite Ek. unfold well_transported in Hw. cbn [andb]. rewrite Hw. cbn [negb].
@@ -553,7 +591,7 @@ Section Proofs.
       apply existsb_exists. exists (cert_of k). split; [exact Hin|].
       apply dverify_spec. exists k. auto. }
     rewrite E2.
-    unfold valid_instance. rewrite Hinst, Hver. cbn [is_empty negb andb String.eqb Ascii.eqb Bool.eqb].
+    unfold valid_instance. rewrite Hinst, Hzone, Hver. cbn [is_empty negb andb String.eqb Ascii.eqb Bool.eqb].
     assert (E3 : dest_ok (receiver_addrs (cfg x) (service_of (expected x)) (binding x)) (msg x) = true).
     { unfold dest_ok. destruct (destination (msg x)) as [d|] eqn:Ed; [|reflexivity].
       apply orb_true_iff. right. specialize (Hdst d eq_refl).
@@ -635,7 +673,7 @@ Section Proofs.
   Proof.
     intros Hreq Hb Hk Hacc.
     pose proof (soundness _ Hacc) as [H _]. cbv zeta in H.
-    destruct (H Hreq) as [H1 _]. destruct (H1 Hb) as (k & sa & sg & Ha & Hg & Hs & Hm).
+    destruct (H Hreq) as [H1 _]. destruct (H1 Hb) as (k & sa & sg & Ha & Hg & Hs & Hm & _).
     subst sg. apply (Hk k sa Ha Hg). exact Hm.
   Qed.
 End Proofs.
